@@ -720,6 +720,22 @@ func safeDispatch(op string, a []string) (out string) {
 	return dispatch(op, a)
 }
 
+// lineDeadline bounds one call: a library call that never returns (a loop whose counter wraps
+// around, say) is answered with HANG and the remaining lines are still served; the abandoned
+// goroutine is left behind.
+var lineDeadline = 30 * time.Second
+
+func deadlineDispatch(op string, a []string) string {
+	done := make(chan string, 1)
+	go func() { done <- safeDispatch(op, a) }()
+	select {
+	case r := <-done:
+		return r
+	case <-time.After(lineDeadline):
+		return "HANG"
+	}
+}
+
 func main() {
 	if f := os.Getenv("VERIF_RX"); f != "" {
 		if data, err := os.ReadFile(f); err == nil {
@@ -745,7 +761,7 @@ func main() {
 		for _, x := range f[1:] {
 			args = append(args, unhex(x))
 		}
-		fmt.Fprintln(out, safeDispatch(f[0], args))
+		fmt.Fprintln(out, deadlineDispatch(f[0], args))
 		if err != nil {
 			break
 		}
